@@ -3321,9 +3321,12 @@ template< size_t L>
    size_t FixedString< L>::find_last_of( const char* str, size_t pos,
       size_t count) const noexcept
 {
+   if (pos == std::string::npos)
+      pos = mLength;
    if ((pos > mLength) || (str == nullptr) || (count == 0))
       return std::string::npos;
-   for (size_t idx = pos + 1; idx-- > 0; )
+   // start at the last character at most, not at the trailing zero
+   for (size_t idx = std::min( pos + 1, length()); idx-- > 0; )
    {
       // since str is allowed to contain 0 characters, we iterate ourselves
       for (size_t str_idx = 0; str_idx < count; ++str_idx)
@@ -3401,9 +3404,12 @@ template< size_t L>
    size_t FixedString< L>::find_last_not_of( const char* str, size_t pos,
       size_t count) const noexcept
 {
+   if (pos == std::string::npos)
+      pos = mLength;
    if ((pos > mLength) || (str == nullptr) || (count == 0))
       return std::string::npos;
-   for (size_t idx = pos + 1; idx-- > 0; )
+   // start at the last character at most, not at the trailing zero
+   for (size_t idx = std::min( pos + 1, length()); idx-- > 0; )
    {
       // since str is allowed to contain 0 characters, we iterate ourselves
       bool  matches = false;
